@@ -35,6 +35,22 @@ def impl(case):
         out["vals_rev"] = [safe(lambda: C2(tup(y))) for y in case["ys"]]
     except Exception as e:  # noqa
         out["vals_rev"] = {"exc": type(e).__name__, "msg": str(e)[:200]}
+    # the transpose is a NEW machine: extend it, then compose it (fst @ cfg goes through ITS transpose) — the result must be
+    # that of a machine with the same arcs built from scratch
+    try:
+        dec = common.mk_fst(case["fst"], R).T
+        one = common.semiring(R).one
+        arcs0 = case["fst"]["arcs"]
+        a0 = (common.dec_sym(arcs0[0][2]), common.dec_sym(arcs0[0][1])) if arcs0 else ("", "")
+        q0 = next((q for q, _ in dec.I), None)
+        if q0 is not None:
+            dec.add_arc(q0, a0, "__zz__", one)
+            dec.add_F("__zz__", one)
+            fresh = common.mk_fst(common.enc_fst(dec, R), R)
+            Ce, Cf = dec @ common.mk_cfg(case["cfg"], R), fresh @ common.mk_cfg(case["cfg"], R)
+            out["edited_T"] = [[safe(lambda: Ce(tup(y))), safe(lambda: Cf(tup(y)))] for y in case["ys"][:8]]
+    except Exception as e:  # noqa
+        out["edited_T"] = {"exc": type(e).__name__, "msg": str(e)[:200]}
     # acceptor / string composition: pointwise product
     a = common.mk_wfsa(case["acc"], R, "field" if R == "Float" else "base")
     try:
@@ -149,6 +165,19 @@ def run(ctx):
             else:
                 if hs == hashseeds[0]:
                     stats["composed_rules"] += len(res["compose"]["rules"])
+                et = res.get("edited_T")
+                if isinstance(et, dict):
+                    semantic.append(_viol(c, hs, "edited_T", None, et))
+                elif et:
+                    for y, (a_, b_) in zip(c["ys"][:8], et):
+                        evaluations += 1
+                        if isinstance(a_, dict) or isinstance(b_, dict):
+                            if not (isinstance(a_, dict) and isinstance(b_, dict)):
+                                semantic.append(_viol(c, hs, "edited_T", y, {"edited_transpose_composed": a_, "same_arcs_built_from_scratch": b_}))
+                        elif not common.close(common.num(a_), common.num(b_), tol, 1e-10):
+                            semantic.append(_viol(c, hs, "edited_T", y, {"edited_transpose_composed": a_, "same_arcs_built_from_scratch": b_}))
+                        else:
+                            traces += 1
                 for name in ("vals", "vals_rev"):
                     vs = res.get(name)
                     if isinstance(vs, dict):
